@@ -25,6 +25,16 @@ package contract
 //@ call callExFromNative requires[permitted] !md.Safe && ctx != nil && ctx.sc.NEF != nil && mfst != nil ==> manifest.permitted(mfst, cs.Hash, &cs.Manifest, md.Name)
 //@ call callExFromNative requires[callee] arg2 == cs
 
+// CALLT (method tokens): the token's call goes ahead only from a context that holds both the
+// read-states and the allow-call flag, with the flags, contract and method the token names.
+//@ func LoadToken
+//@ may-panic
+//@ opt frame off
+//@ opt stable ic.VM, ic.VM.flags, ic.VM.gasConsumed
+//@ requires ic != nil && ic.VM != nil && ic.VM.gasConsumed != nil
+//@ call callInternal requires[flags] ic.VM.flags & (callflag.ReadStates | callflag.AllowCall) == callflag.ReadStates | callflag.AllowCall
+//@ call callInternal requires[token] arg1 == cs && arg2 == md && arg3 == tok.CallFlag && arg4 == tok.HasReturn && !arg6
+
 //@ prop C04,C16
 //@ func callExFromNative
 //@ may-panic
